@@ -30,8 +30,8 @@ type SelftestEntry struct {
 		Old  string `json:"old"`
 		New  string `json:"new"`
 	} `json:"edits,omitempty"`
-	Functions []string `json:"functions"` // functions to re-verify
-	Expect    []string `json:"expect"`    // obligation names (prefix match); empty: any obligation of the functions
+	Functions []string `json:"functions"`        // functions to re-verify
+	Expect    []string `json:"expect"`           // obligation names (prefix match); empty: any obligation of the functions
 	Engine    string   `json:"engine,omitempty"` // "" = contracts; "frame" = frame checker
 	Note      string   `json:"note,omitempty"`
 }
